@@ -63,6 +63,8 @@ func checkC14(w *World, r *Report) {
 	equalsEntryRule(w, r, "C14.entry")
 	r.rule("C14.stateless", "Equal_Q and the functions of its package it is built from (the sequence test, the slice accessor) keep no state: they assign no package-level variable, so an answer depends on the two operands only and concurrent comparisons cannot disturb each other")
 	noGlobalWritesRule(w, r, "C14.stateless", "equality", []*ssa.Function{w.Fn("types", "Equal_Q"), w.Fn("types", "Sequential_Q"), w.Fn("types", "GetSlice")})
+	// = reaches Equal_Q through the binder's adapters: whatever those keep between calls is shared by concurrent comparisons
+	capturedStateRule(w, r, e, "C14.adapter-state")
 	r.rule("C14.go-equality", "Go's == / != on two lisp values is used only where neither can be a comparable struct that carries a source position (a Symbol read from text compares unequal to the same symbol read elsewhere): such values must go through Equal_Q's own case")
 	goEqualityRule(w, r, e, "C14.go-equality")
 	r.rule("C14.symmetric-shape", "every collection case compares the sizes of both operands before comparing elements, and the two sequence cases recurse through the same function element by element")
@@ -128,7 +130,11 @@ func checkC14(w *World, r *Report) {
 	}
 	// presence
 	np := 0
-	for _, l := range naturalLoops(eq) {
+	var eqLoops []natLoop
+	for _, f := range w.withPkgHelpers(eq) {
+		eqLoops = append(eqLoops, naturalLoops(f)...)
+	}
+	for _, l := range eqLoops {
 		blocks := loopBlocks(l)
 		var ranged ssa.Value
 		for b := range blocks {
@@ -201,6 +207,10 @@ func checkC14(w *World, r *Report) {
 				// the operand itself, or its element slice obtained with the accessor (GetSlice)
 				from := func(arg, op ssa.Value) bool {
 					if arg == op {
+						return true
+					}
+					// the operand's storage (a.(HashMap).Val)
+					if k := e.keyOf(arg); k.Root == op && k.Path != "" {
 						return true
 					}
 					if ex, ok := arg.(*ssa.Extract); ok && ex.Index == 0 {
@@ -505,6 +515,32 @@ func checkC13(w *World, r *Report) {
 	stringCharsRule(w, r, "C13.chars")
 	r.rule("C13.kind", "the kinds a collection builtin can return (computed as the possible dynamic types of its success results) stay within the kinds confirmed against the README / step files on the reviewed tree: concat, cons, rest, map, take, drop, keys, vals yield lists; vec, subvec, range vectors; assoc/dissoc/conj/update the kind of their argument; a builtin whose result could suddenly be 'whatever was passed' or another kind is reported")
 	kindRule(w, r, e, "C13.kind")
+	r.rule("C13.seq-accessor", "the sequence accessor the builtins judge 'is this a sequence' by (types.GetSlice) hands out the element slice of a list or of a vector and nothing else: for every other kind of value it fails, which is what makes first, rest, nth, count, concat, take ... return an error outside their domain")
+	if gs := w.Fn("types", "GetSlice"); gs == nil {
+		r.undecided("C13.seq-accessor", nil, "types.GetSlice", token.NoPos, "function no longer resolves")
+	} else {
+		cases := e.accessorCases(gs)
+		nacc := 0
+		for _, cs := range cases {
+			if cs.isNil {
+				continue
+			}
+			nacc++
+			kind := ""
+			for _, f := range cs.facts {
+				if f.Kind == "type" && f.T != nil {
+					if nt, ok := f.T.(*types.Named); ok {
+						kind = nt.Obj().Name()
+					}
+				}
+			}
+			r.check((kind == "List" || kind == "Vector") && strings.HasSuffix(cs.path, "."+kind+").Val"), "C13.seq-accessor", gs, "elements handed out for "+nz(kind, "an unknown kind"), gs.Pos(), "the Val slice of a list or vector", "the sequence accessor succeeds for a value that is neither a list nor a vector ("+nz(kind, "kind not established")+", path "+cs.path+"): builtins that must fail on sets, maps or strings now treat them as sequences, with Go's random map order")
+		}
+		if len(cases) == 0 {
+			r.bad("C13.seq-accessor", gs, "shape of the sequence accessor", gs.Pos(), "the accessor no longer returns, per dynamic type of its argument, a field of that argument (it delegates to a conversion that may accept more kinds than lists and vectors): the kinds it succeeds for cannot be established")
+		}
+		r.floor("C13.seq-accessor", "kinds the sequence accessor succeeds for", nacc+boolInt(len(cases) == 0)*2, 2)
+	}
 	r.rule("C13.mapiter", "inside a loop ranging over a map, no other map is both read (or deleted from) and written: the result must not depend on Go's random iteration order")
 	names := w.registeredNames()
 	want := propertyBuiltins()
@@ -1159,6 +1195,9 @@ func checkC17(w *World, r *Report) {
 		}
 		r.check(okSpan, "C17.span", rl, "cursor of a collection", rl.Pos(), "first token's cursor closed at the token that matched the closer", "the collection's cursor does not span from its first to its last token")
 	}
+	macroSpanRule(w, r, "C17.macro-span")
+	// the rows the scanner counts are the rows of the text the caller passed
+	textIntactRule(w, r, "C17.text-intact")
 	if rf := w.Fn("reader", "read_form"); rf != nil {
 		nm, okAll := 0, true
 		for _, fn := range w.pkgFuncs("reader") {
@@ -1671,7 +1710,7 @@ func checkC19(w *World, r *Report) {
 	}
 	r.rule("C19.route-context", "whatever route a program takes (eval, load-file, REPL, a builtin calling back into the evaluator) it runs under the context of the caller: every context handed to an evaluating call is the function's own or a child of it (shared with C07.derive), so deadlines and cancellation act the same on every delivery route")
 	if m19 := newEvalModel(w, e); m19.ok {
-		nrc := ctxDeriveRule(w, r, e, m19, "C19.route-context")
+		nrc := ctxDeriveRule(w, r, e, m19, "C19.route-context", nil)
 		r.floor("C19.route-context", "contexts handed to evaluating calls", nrc, 15)
 	} else {
 		r.undecided("C19.route-context", nil, "evaluator model", token.NoPos, m19.why)
@@ -2176,6 +2215,81 @@ func checkC20(w *World, r *Report) {
 				}
 			}
 		}
+		if nst == 0 {
+			// the boxing loop lives in a helper that is handed the argument list and (a tail of) the vector
+			srcP := ssa.Value(pr.fn.Params[len(pr.fn.Params)-1])
+			for _, b := range pr.fn.Blocks {
+				for _, in := range b.Instrs {
+					c, ok := in.(*ssa.Call)
+					if !ok || c.Call.StaticCallee() == nil || c.Call.StaticCallee().Pkg != pr.fn.Pkg || len(c.Call.StaticCallee().Blocks) == 0 {
+						continue
+					}
+					g := c.Call.StaticCallee()
+					si, di, low := -1, -1, int64(0)
+					for i, a := range c.Call.Args {
+						if a == srcP {
+							si = i
+						}
+						switch y := a.(type) {
+						case *ssa.MakeSlice:
+							di = i
+						case *ssa.Slice:
+							if _, isMk := y.X.(*ssa.MakeSlice); isMk && y.High == nil {
+								di = i
+								if y.Low != nil {
+									k, isK := y.Low.(*ssa.Const)
+									if !isK || k.Value == nil {
+										di = -1
+									} else {
+										low = k.Int64()
+									}
+								}
+							}
+						}
+					}
+					if si < 0 || di < 0 {
+						continue
+					}
+					for _, l := range naturalLoops(g) {
+						for bb := range loopBlocks(l) {
+							for _, in2 := range bb.Instrs {
+								st, ok := in2.(*ssa.Store)
+								if !ok {
+									continue
+								}
+								ia, ok := st.Addr.(*ssa.IndexAddr)
+								if !ok || ia.X != ssa.Value(g.Params[di]) {
+									continue
+								}
+								nst++
+								t, off, ok := e.linOf(ia.Index)
+								if !ok || t.Kind != 2 {
+									okOff = false
+									continue
+								}
+								rel, found := off, false
+								for b3 := range loopBlocks(l) {
+									for _, in3 := range b3.Instrs {
+										if ia2, ok := in3.(*ssa.IndexAddr); ok && ia2.X == ssa.Value(g.Params[si]) {
+											if t2, off2, ok := e.linOf(ia2.Index); ok && t2.String() == t.String() {
+												rel, found = off-off2, true
+											}
+										}
+									}
+								}
+								// a range loop reads its element through the loop variable itself
+								if !found {
+									rel = off
+								}
+								if low+rel != pr.off {
+									okOff = false
+								}
+							}
+						}
+					}
+				}
+			}
+		}
 		r.check(nst >= 1 && okOff, "C20.siblings", pr.fn, "slot of each boxed argument", pr.fn.Pos(), fmt.Sprintf("argument k goes to slot k+%d in every branch", pr.off), "an argument is boxed into the wrong slot of the reflective call (the context or a neighbour is overwritten)")
 	}
 	// results
@@ -2207,6 +2321,15 @@ func checkC20(w *World, r *Report) {
 				if strings.Contains(d, "res[0]") {
 					okV = true
 				}
+			}
+			// the value handed back is, on every return, exactly what the convention says: nothing for the
+			// error-only shape, the function's first result itself for the value-and-error shape
+			v0 := rt[1].(ssa.Value)
+			if pr.fn == nilerr {
+				r.check(isNilConst(v0), "C20.results", pr.fn, "value returned by "+pr.fn.Name(), ret.Pos(), "nil", "the error-only shape hands back a value")
+			} else {
+				isFirst := canonVal(e, v0) == "Interface(p0[0])"
+				r.check(isFirst, "C20.results", pr.fn, "value returned by "+pr.fn.Name(), ret.Pos(), "the function's first result, as it is", "the value-and-error shape does not hand back the function's first result itself on this path ("+describeVal(e, v0, 0)+"): some results of the bound function are replaced by something else")
 			}
 		}
 		r.check(okE && okV, "C20.results", pr.fn, pr.fn.Name(), pr.fn.Pos(), "value passed through, error returned iff non-nil", "results are not mapped by the convention")
@@ -3633,4 +3756,137 @@ func constFormatRule(w *World, r *Report, rule string) {
 		}
 	}
 	r.floor(rule, "fmt formatting calls in the library", n, 20)
+}
+
+func boolInt(b bool) int {
+	if b {
+		return 1
+	}
+	return 0
+}
+
+// macroSpanRule: the span of a form the reader builds around a prefix token ('x, `x, ~x, ~@x, ^m x, @x and the
+// like) ends at a token that belongs to the form.  A token fetched from the token stream after a nested form
+// has been read is the token that follows the form: it belongs to the next form, possibly lines further down.
+func macroSpanRule(w *World, r *Report, rule string) {
+	r.rule(rule, "outside read_list, the position a reader function closes a form's span with is the cursor of a token it fetched before reading any nested form (the prefix token), or the position of a form it read: never a token fetched from the stream after a nested read, which is the first token of whatever follows (errors in top-level reader-macro forms would be reported on the lines of the next top-level form)")
+	rl := w.Fn("reader", "read_list")
+	rf := w.Fn("reader", "read_form")
+	if rl == nil || rf == nil {
+		r.undecided(rule, nil, "read_list / read_form", token.NoPos, "functions no longer resolve")
+		return
+	}
+	// nested readers: functions of the reader that can reach read_form
+	reach := w.reachableTo(rf, "reader")
+	reach[rf], reach[rl] = true, true
+	isTokPtr := func(t types.Type) bool {
+		p, ok := t.Underlying().(*types.Pointer)
+		if !ok {
+			return false
+		}
+		nt, ok := p.Elem().(*types.Named)
+		return ok && nt.Obj().Name() == "Token"
+	}
+	var okTok func(v ssa.Value, seen map[ssa.Value]bool) (bool, string)
+	okTok = func(v ssa.Value, seen map[ssa.Value]bool) (bool, string) {
+		if seen[v] {
+			return true, ""
+		}
+		seen[v] = true
+		switch x := v.(type) {
+		case *ssa.Call:
+			sc := x.Call.StaticCallee()
+			if sc == nil || !isTokPtr(x.Type()) {
+				return false, "token of unknown origin"
+			}
+			// fetched before any nested read of this function?
+			fn := x.Parent()
+			for _, b := range fn.Blocks {
+				for i, in := range b.Instrs {
+					c, ok := in.(*ssa.Call)
+					if !ok || c == x || !reach[c.Call.StaticCallee()] {
+						continue
+					}
+					before := false
+					if b == x.Block() {
+						for _, in2 := range b.Instrs[i:] {
+							if in2 == ssa.Instruction(x) {
+								before = true
+							}
+						}
+					}
+					if before || blockReaches(b, x.Block(), false) {
+						return false, "token fetched with " + sc.Name() + "() at " + w.pos(x.Pos()) + " after the nested read at " + w.pos(c.Pos())
+					}
+				}
+			}
+			return true, ""
+		case *ssa.Phi:
+			for _, op := range x.Edges {
+				if ok, why := okTok(op, seen); !ok {
+					return false, why
+				}
+			}
+			return true, ""
+		case *ssa.Parameter:
+			args := w.callSiteArgs(x)
+			if len(args) == 0 {
+				return false, "token parameter without call sites"
+			}
+			for _, a := range args {
+				if ok, why := okTok(a, seen); !ok {
+					return false, why
+				}
+			}
+			return true, ""
+		}
+		return false, "token of unknown origin"
+	}
+	n := 0
+	for _, fn := range w.pkgFuncs("reader") {
+		if fn == rl || isTestFunc(w, fn) {
+			continue
+		}
+		for _, b := range fn.Blocks {
+			for _, in := range b.Instrs {
+				c, ok := in.(*ssa.Call)
+				if !ok || c.Call.StaticCallee() == nil || c.Call.StaticCallee().Name() != "Close" || len(c.Call.Args) < 2 || !strings.HasSuffix(fnPkgPath(c.Call.StaticCallee()), "/types") {
+					continue
+				}
+				fa, ok := c.Call.Args[1].(*ssa.FieldAddr)
+				if !ok || !isTokPtr(fa.X.Type()) {
+					continue // the position of a form that was read
+				}
+				n++
+				okT, why := okTok(fa.X, map[ssa.Value]bool{})
+				r.check(okT, rule, fn, "end of the span of a reader-built form", c.Pos(), "the cursor of a token fetched before any nested read", "the span is closed at a token that need not belong to the form ("+why+"): it is the first token of what follows, so the form's lines run into the next form")
+			}
+		}
+	}
+	r.floor(rule, "spans closed at a token outside read_list", n, 2)
+}
+
+// reachableTo: the functions of package rel (module-relative) from which target is reachable through static calls.
+func (w *World) reachableTo(target *ssa.Function, rel string) map[*ssa.Function]bool {
+	out := map[*ssa.Function]bool{}
+	fns := w.pkgFuncs(rel)
+	for changed := true; changed; {
+		changed = false
+		for _, fn := range fns {
+			if out[fn] {
+				continue
+			}
+			for _, b := range fn.Blocks {
+				for _, in := range b.Instrs {
+					if ci, ok := in.(ssa.CallInstruction); ok {
+						if sc := ci.Common().StaticCallee(); sc != nil && (sc == target || out[sc]) {
+							out[fn] = true
+							changed = true
+						}
+					}
+				}
+			}
+		}
+	}
+	return out
 }
